@@ -17,3 +17,66 @@ func VerifDecodeTagAndMembershipList(msg []byte) (uint8, string, []uint16, error
 func VerifPRF(key []byte, x uint16) []byte {
 	return makePRF(key)(x)
 }
+
+// VerifTopicState is a snapshot of what the member holds for a topic, for the verification harness.
+type VerifTopicState struct {
+	Registered bool
+	Views      map[uint16][]uint16
+	Responded  []uint16
+	Queued     int
+}
+
+func (m *Member) VerifTopicState(t []byte) VerifTopicState {
+	v, ok := m.topicsToMemberViews.Load(topic(t))
+	if !ok {
+		return VerifTopicState{}
+	}
+	tpv := v.(*topicPeerView)
+	s := VerifTopicState{Registered: true, Views: map[uint16][]uint16{}, Queued: len(tpv.responses)}
+	tpv.memberToView.Range(func(k, v interface{}) bool {
+		s.Views[k.(uint16)] = v.([]uint16)
+		return true
+	})
+	tpv.responsesReceived.Range(func(k, _ interface{}) bool {
+		s.Responded = append(s.Responded, k.(uint16))
+		return true
+	})
+	return s
+}
+
+// VerifRegister performs the first two steps of Synchronize (register the topic, precompute the tags).
+func (m *Member) VerifRegister(t []byte) error {
+	if _, err := m.registerInterestInTopic(topic(t)); err != nil {
+		return err
+	}
+	m.precomputeTagsForTopic(topic(t), "verif-topic")
+	return nil
+}
+
+// VerifIntersect is intersectedView on a registered topic.
+func (m *Member) VerifIntersect(t []byte) []uint16 {
+	v, ok := m.topicsToMemberViews.Load(topic(t))
+	if !ok {
+		return nil
+	}
+	return m.intersectedView(topic(t), "verif-topic", v.(*topicPeerView))
+}
+
+// VerifOwnView is myMemberViewSorted.
+func (m *Member) VerifOwnView(t []byte) []uint16 {
+	return m.myMemberViewSorted(topic(t))
+}
+
+// VerifPopResponse takes one queued confirmation, if any.
+func (m *Member) VerifPopResponse(t []byte) ([]uint16, bool) {
+	v, ok := m.topicsToMemberViews.Load(topic(t))
+	if !ok {
+		return nil, false
+	}
+	select {
+	case p := <-v.(*topicPeerView).responses:
+		return p, true
+	default:
+		return nil, false
+	}
+}
